@@ -162,6 +162,84 @@ theorem run_exempt (fixed : Bool) (env : Env) (screens : List Screen) (evs : Lis
   | nil => exact h
   | cons e es ih => exact ih _ (step_exempt fixed env screens s e h)
 
+/-! ### the registered handlers are exactly those registered and not unregistered since -/
+
+/-- what the history says about handler `h`: the last `register h` / `unregister h` event decides -/
+def regAfter (b : Bool) (h : Handler) : List Ev → Bool
+  | [] => b
+  | .register h' :: es => regAfter (if h' = h then true else b) h es
+  | .unregister h' :: es => regAfter (if h' = h then false else b) h es
+  | _ :: es => regAfter b h es
+
+theorem step_handlers (fixed : Bool) (env : Env) (screens : List Screen) (s : Proc) (e : Ev) :
+    (step fixed env screens s e).handlers =
+      match e with
+      | .register h => if h ∈ s.handlers then s.handlers else h :: s.handlers
+      | .unregister h => s.handlers.erase h
+      | _ => s.handlers := by
+  cases e with
+  | connect cid sid rev => simp only [step]; split <;> (try split) <;> rfl
+  | recv cid bytes => rfl
+  | proc cid => simp only [step]; split <;> (try split) <;> rfl
+  | peerClose cid => rfl
+  | setRand r => rfl
+  | reverseFailed sid => rfl
+  | register h => rfl
+  | unregister h => rfl
+
+/-- In every reachable state the list of registered handlers has no duplicates and holds exactly the
+handlers whose last (un)registration in the history is a registration — whatever connections did in
+between, in whatever order handlers were registered, registered again, or unregistered (head, middle
+or tail of the list, or not in it at all). -/
+theorem handlers_follow_history (fixed : Bool) (env : Env) (screens : List Screen) (evs : List Ev)
+    (s : Proc) (hnd : s.handlers.Nodup) :
+    (run fixed env screens s evs).handlers.Nodup ∧
+    ∀ h, h ∈ (run fixed env screens s evs).handlers ↔ regAfter (decide (h ∈ s.handlers)) h evs = true := by
+  induction evs generalizing s with
+  | nil => exact ⟨hnd, fun h => by simp [run, regAfter]⟩
+  | cons e es ih =>
+    have hstep := step_handlers fixed env screens s e
+    have hnd' : (step fixed env screens s e).handlers.Nodup := by
+      rw [hstep]
+      cases e <;> simp only <;> try exact hnd
+      · split
+        · exact hnd
+        · rename_i hn; exact List.nodup_cons.mpr ⟨hn, hnd⟩
+      · exact hnd.erase _
+    obtain ⟨ih1, ih2⟩ := ih (step fixed env screens s e) hnd'
+    refine ⟨ih1, fun h => ?_⟩
+    rw [show run fixed env screens s (e :: es) = run fixed env screens (step fixed env screens s e) es from rfl]
+    rw [ih2 h, hstep]
+    cases e with
+    | register h' =>
+      simp only [regAfter]
+      by_cases heq : h' = h
+      · subst heq
+        by_cases hm : h' ∈ s.handlers <;> simp [hm]
+      · by_cases hm : h' ∈ s.handlers
+        · simp [hm, heq]
+        · have : (h ∈ h' :: s.handlers) ↔ h ∈ s.handlers := by
+            simp [List.mem_cons, Ne.symm heq]
+          simp [hm, heq, this]
+    | unregister h' =>
+      simp only [regAfter]
+      by_cases heq : h' = h
+      · subst heq
+        have : h' ∉ s.handlers.erase h' := fun hm => by
+          have := (List.Nodup.mem_erase_iff hnd).mp hm
+          exact this.1 rfl
+        simp [this]
+      · have : (h ∈ s.handlers.erase h') ↔ h ∈ s.handlers := by
+          rw [List.Nodup.mem_erase_iff hnd]
+          simp [Ne.symm heq]
+        simp [heq, this]
+    | connect cid sid rev => simp [regAfter]
+    | recv cid bytes => simp [regAfter]
+    | proc cid => simp [regAfter]
+    | peerClose cid => simp [regAfter]
+    | setRand r => simp [regAfter]
+    | reverseFailed sid => simp [regAfter]
+
 /-! ### the password checkers -/
 
 theorem checkList_some_iff (enc : List UInt8 → List UInt8 → List UInt8) (chal resp : List UInt8)
